@@ -319,7 +319,8 @@ def run(chk, replay=None):
     t_start = _time.time()
     txinfo = run_translator(chk)
     broken = chk.lean(['Lcapy/Props/C01.lean', 'Lcapy/Props/C01TwoPort.lean', 'Lcapy/Props/C01Stamps.lean',
-                       'Lcapy/Props/C01Glue.lean', 'Lcapy/Props/C01Amp.lean'],
+                       'Lcapy/Props/C01Glue.lean', 'Lcapy/Props/C01Amp.lean', 'Lcapy/Props/C01Ohm.lean',
+                       'Lcapy/Props/C01Oracle.lean', 'Lcapy/Props/NonVacuityC01.lean'],
                       helper_files=['Lcapy/Proofs/MNA.lean', 'Lcapy/Proofs/MNAStamps.lean', 'Lcapy/Proofs/Alloc.lean',
                                     'Lcapy/Model/MNA.lean', 'Lcapy/Model/Alloc.lean',
                                     'Lcapy/Model/Netlist.lean', 'Lcapy/Generated/Stamps.lean',
@@ -778,6 +779,57 @@ def run(chk, replay=None):
             else:
                 ext.append('Ix%d %s %s %s' % (j + 1, a_, b_, ('dc %s' if analysis == 'dc' else 'step %s') % gen_netlist.fs(gen_netlist.sv(rng))))
         sequence(base, ext, 'multi-line' if k % 2 == 0 else 'line-by-line', analysis, spoint)
+
+    # ---- outside the value guard of the spec (`Cpt.valOK`): a resistor of ZERO resistance.  The front-end must reject the
+    # netlist; the real code must not present a finite "solution" for it (it raises, or its matrix / result contains zoo / nan)
+    def zero_resistance(k):
+        nonlocal n_cex
+        S = L.sympy
+        case = gen_netlist.random_case(rng, analysis=rng.choice(['dc', 's']), max_nodes=4, ext=False)
+        rl = [i for i, l in enumerate(case['lines']) if l.split()[0][0] == 'R' and len(l.split()) == 4]
+        if not rl:
+            return
+        i = rng.choice(rl)
+        lines = list(case['lines'])
+        lines[i] = ' '.join(lines[i].split()[:3] + [rng.choice(['0', '{0}'])])
+        an = 'dc' if case['analysis'] == 'dc' else 's 7/3'
+        rep = drv.ask1('mna.solve %s || %s' % (an, ' || '.join(lines)))
+        chk.case((tuple(lines), an, 'zero-R'), False)
+        model_rejects = rep.startswith('error ill-formed:zero-resistance')
+        chk.count('zero-resistance', 'model:' + ('rejected' if model_rejects else rep.split()[0] + ' ' + rep.split(':')[0][:30]))
+        try:
+            with common.time_limit(30):
+                cct = L.lcapy.Circuit('\n'.join(lines))
+                key = list(cct.sub.keys())[0]
+                mna = cct.sub[key].mna
+                bad = (S.zoo, S.nan, S.oo, -S.oo)
+                undefined = mna._A.has(*bad) or mna._Z.has(*bad)
+                if not undefined:
+                    for d in (mna.Vdict, mna.Idict):
+                        for v in d.values():
+                            if S.sympify(v.sympy if hasattr(v, 'sympy') else v).has(*bad):
+                                undefined = True
+                outcome = 'undefined(zoo/nan)' if undefined else 'finite'
+        except common.TimeLimit:
+            chk.count('zero-resistance', 'lcapy:time-limit')
+            return
+        except Exception as e:   # noqa
+            outcome = 'raises:' + type(e).__name__
+        chk.count('zero-resistance', 'lcapy:' + outcome)
+        chk.coverage['correspondence']['compared'] += 1
+        if not model_rejects:
+            chk.coverage['correspondence']['disagreements'] += 1
+            disagreements.append({'zero_resistance': lines, 'model': rep[:80], 'lcapy': outcome})
+        elif outcome == 'finite':
+            n_cex += 1
+            chk.counterexample({'kind': 'zero-resistance-accepted', 'analysis': case['analysis']},
+                               {'input': {'lines': lines, 'analysis': an}, 'lcapy': 'finite matrix and solution',
+                                'spec': 'a zero resistance is outside the value guard (v = r i with r = 0 is a short circuit, V/r is undefined)'},
+                               'Lcapy presents a finite solution for a netlist with a zero-ohm resistor')
+
+    if not replay:
+        for k in range(6 if quick else 20):
+            zero_resistance(k)
 
     if replay:
         import json
